@@ -56,6 +56,9 @@ type Stream struct {
 	// regularSeen is set once a non-pseudo header is decoded in the block.
 	// Any pseudo-header after that point is invalid.
 	regularSeen bool
+	// fieldSeen is set once any header field is decoded in the block. A
+	// dynamic table size update after that point is invalid.
+	fieldSeen bool
 
 	// content-length declared by the request, and the number of DATA bytes
 	// received so far, used to validate the two match (RFC 7540 8.1.2.6).
@@ -126,6 +129,7 @@ func NewStream(id uint32, win int32) *Stream {
 	strm.pseudoPath = false
 	strm.pseudoAuthority = false
 	strm.regularSeen = false
+	strm.fieldSeen = false
 	strm.contentLength = 0
 	strm.hasContentLength = false
 	strm.recvBody = 0
